@@ -637,6 +637,8 @@ func PathOf(pkg *types.Package) string {
 // FuncName:
 // - func: pkg.name
 // - method: pkg.T.name, pkg.(*T).name
+// - wrapper whose receiver type lives in another package rpkg:
+//   pkg.(rpkg.T).name, pkg.(*rpkg.T).name
 func FuncName(pkg *types.Package, name string, recv *types.Var, org bool) string {
 	if recv != nil {
 		named, ptr := recvNamed(recv.Type())
@@ -646,6 +648,16 @@ func FuncName(pkg *types.Package, name string, recv *types.Var, org bool) string
 				tName = named.Obj().Name()
 			} else {
 				tName = abi.NamedName(named)
+			}
+			// A $thunk / $bound wrapper is compiled into the referring package, not
+			// into the package of its receiver type: keep the package of a foreign
+			// receiver in the name, so that a.T.M$bound and b.T.M$bound referenced
+			// from one package stay distinct ('(' cannot occur in a package path).
+			if rp := named.Obj().Pkg(); !org && rp != nil && pkg != nil && PathOf(rp) != PathOf(pkg) {
+				tName = PathOf(rp) + "." + tName
+				if !ptr {
+					tName = "(" + tName + ")"
+				}
 			}
 			if ptr {
 				tName = "(*" + tName + ")"
